@@ -1,6 +1,7 @@
 package meta
 
 import (
+	"bytes"
 	"encoding/binary"
 	"fmt"
 	"strconv"
@@ -279,6 +280,12 @@ func syncContainerCounters(b *bbolt.Bucket, force bool) error {
 			continue
 		}
 		if inGarbage(cInt, obj) != statusAvailable {
+			continue
+		}
+		// a redundant copy mark keeps the object readable, but its payload
+		// was subtracted when the mark was written
+		garbageMark := mkGarbageKey(obj)
+		if k, _ := cInt.Seek(garbageMark); bytes.Equal(k, garbageMark) {
 			continue
 		}
 		sizeRaw := getObjAttribute(cInt, obj, object.FilterPayloadSize)
